@@ -49,7 +49,7 @@ def cases(seed, tier):
     for i in range(n):
         yield {"family": kinds[i % len(kinds)], "ref": refs[(i // len(kinds)) % len(refs)], "sub": int(rng.integers(0, 2**31))}
     for i in range(2 if tier == "quick" else 10):
-        yield {"family": "big", "ref": "any", "sub": int(rng.integers(0, 2**31)), "first": i == 0, "cap": 15 * 10 ** 5 if tier == "quick" else None}
+        yield {"family": "big", "ref": "any", "sub": int(rng.integers(0, 2**31)), "first": i == 0, "cap": 15 * 10 ** 5 if tier == "quick" else 5 * 10 ** 6 + 3}
 
 
 # ---------------------------------------------------------------------------------------------------------------
